@@ -36,3 +36,19 @@ pub proof fn lemma_sview_insert<V>(m0: Map<String, V>, k: String, v: V)
     assert(sview(m0.insert(k, v)).dom() =~= sview(m0).insert(k@, v).dom());
     assert(sview(m0.insert(k, v)) =~= sview(m0).insert(k@, v));
 }
+
+/// R3 for-values shim: `&m[k]` for a key yielded by `m.keys()`
+#[verifier::external_body]
+pub fn vx_map_index<'a, V>(m: &'a std::collections::HashMap<String, V>, k: &String) -> (r: &'a V)
+    requires m@.contains_key(*k)
+    ensures *r == m@[*k]
+{ &m[k] }
+
+/// R3 for-keys / for-values shim: the keys of the map, each exactly once (the order is the map's, i.e. unspecified)
+#[verifier::external_body]
+pub fn vx_map_keys<'a, V>(m: &'a std::collections::HashMap<String, V>) -> (ks: Vec<&'a String>)
+    ensures
+      forall|j: int| 0 <= j < ks@.len() ==> m@.contains_key(*#[trigger] ks@[j]),
+      forall|k: String| m@.contains_key(k) ==> exists|j: int| 0 <= j < ks@.len() && *#[trigger] ks@[j] == k,
+      forall|i: int, j: int| 0 <= i < j < ks@.len() ==> *ks@[i] != *ks@[j],
+{ m.keys().collect() }
